@@ -16,7 +16,7 @@ def root_fn(f):
 
 
 def ok_returns(f):
-    return [bi for bi, b in enumerate(f.blocks) for s in b["s"] if s["k"] == "assign" and s["p"]["l"] == 0 and not s["p"].get("pr") and s["r"]["k"] == "agg" and s["r"].get("variant") == "Ok"]
+    return [bi for bi, b in enumerate(f.blocks) for s in b["s"] if s["k"] == "assign" and s["p"]["l"] in Q.ret_locals(f) and not s["p"].get("pr") and s["r"]["k"] == "agg" and s["r"].get("variant") == "Ok"]
 
 
 def rule_handshake_tables(ctx):
@@ -87,7 +87,7 @@ def rule_handshake_tables(ctx):
         rets = []
         for bi in oks:
             for s in f.blocks[bi]["s"]:
-                if s["k"] == "assign" and s["p"]["l"] == 0 and s["r"]["k"] == "agg":
+                if s["k"] == "assign" and s["p"]["l"] in Q.ret_locals(f) and s["r"]["k"] == "agg":
                     rets.append(T.rvalue(s["r"]))
         keyterms = [x for r in rets for x in subterms(r) if x[0] == "field" and x[2] == "key" and chain(x)[1][-2:] == ["session_id", "key"]]
         if net == "consensus" and d == "outbound":
